@@ -121,7 +121,9 @@ func main() {
 	// option switches on a covering subset (pairwise over target x switch on one batch per kind)
 	switches := [][]string{{"--skip-tag-packages"}, {"--strict-responders"}, {"--struct-tags", "yaml", "--struct-tags", "db"}, {"--strict-additional-properties"}, {"--keep-spec-order"}, {"--principal", "models.VfPrincipal"}}
 	if c.Thorough() {
-		switches = append(switches, []string{"--with-enum-ci"}, []string{"--rooted-error-path"}, []string{"--exclude-main"}, []string{"--exclude-spec"}, []string{"--skip-models"}, []string{"--skip-operations"})
+		// --skip-models / --skip-operations are not switches of a complete generation: they leave out
+		// the packages the rest refers to on purpose (incremental regeneration, C11's subject)
+		switches = append(switches, []string{"--with-enum-ci"}, []string{"--rooted-error-path"}, []string{"--exclude-main"}, []string{"--exclude-spec"})
 	}
 	for si, sw := range switches {
 		for ki, kind := range []string{"schema", "param", "name", "op"} {
@@ -200,6 +202,10 @@ func batchSpec(as []atom) J {
 		for k, v := range a.secDefs {
 			sec[k] = v
 		}
+	}
+	if len(paths) == 0 {
+		// a batch of definitions only: the application targets need at least one operation
+		paths["/vfping"] = J{"get": J{"operationId": "vfPing", "responses": J{"200": J{"description": "ok"}}}}
 	}
 	// reference every definition from an operation so that flattening keeps it
 	defs["VfPrincipal"] = J{"type": "object", "properties": J{"name": J{"type": "string"}}}
@@ -404,6 +410,26 @@ func runBatch(c *core.Ctx, as []atom, tgs []string, m mode, extra []string, pass
 				ids[id] = "malformed import path " + mm[1]
 			}
 		}
+		// a tag package that closes an import cycle (a tag named like a package the generated code imports)
+		for _, mm := range regexp.MustCompile(`imports (\S+): import cycle not allowed`).FindAllStringSubmatch(out, -1) {
+			parts := strings.Split(mm[1], "/")
+			if id, ok := byOp["pkg:"+strings.ToLower(regexp.MustCompile(`[^\pL\pN]`).ReplaceAllString(parts[len(parts)-1], ""))]; ok {
+				ids[id] = "import cycle not allowed: " + mm[1]
+			}
+		}
+		// a tag package that shadows a predeclared identifier in the files shared by all operations
+		for _, mm := range regexp.MustCompile(`(?m)^(.*(?:use of package (\pL[\pL\pN_]*) not in selector|: (\pL[\pL\pN_]*) is not a type|: (\pL[\pL\pN_]*) \(package\) is not|cannot use (\pL[\pL\pN_]*) \(package\)).*)$`).FindAllStringSubmatch(out, -1) {
+			for _, name := range mm[2:] {
+				if name == "" {
+					continue
+				}
+				if id, ok := byOp["pkg:"+strings.ToLower(name)]; ok {
+					if _, seen := ids[id]; !seen {
+						ids[id] = strings.TrimSpace(mm[1])
+					}
+				}
+			}
+		}
 		for _, mm := range rxFileLine.FindAllStringSubmatch(out, -1) {
 			if len(ids) > 0 && strings.Contains(out, "malformed import path") {
 				break
@@ -444,6 +470,14 @@ func runBatch(c *core.Ctx, as []atom, tgs []string, m mode, extra []string, pass
 						ids[id] = strings.TrimSpace(l)
 					}
 				}
+				// <scheme>Auth fields of the API struct (names the ASCII normalisation erases included)
+				for _, a := range as {
+					for sk := range a.secDefs {
+						if strings.Contains(l, sk+"Auth") || (len(norm(sk)) > 1 && strings.Contains(nl, norm(sk)+"auth")) {
+							ids[a.id] = strings.TrimSpace(l)
+						}
+					}
+				}
 			}
 		}
 		mu.Lock()
@@ -454,6 +488,7 @@ func runBatch(c *core.Ctx, as []atom, tgs []string, m mode, extra []string, pass
 			if pass == "" {
 				report(id, kind, tg, cfg, fmt.Sprintf("generate %s on a valid document: %s: %s", tg, kind, core.OneLine(msg)), files(out))
 			} else {
+				reportedAtoms[id]++
 				c.Violation(fmt.Sprintf("C01/B:%s/%s/%s", id, kind, tg), fmt.Sprintf("composite (%s): generate %s: %s: %s", cfg, tg, kind, core.OneLine(msg)), files(out))
 			}
 		}
@@ -548,6 +583,21 @@ func runBatch(c *core.Ctx, as []atom, tgs []string, m mode, extra []string, pass
 					}
 				}
 				runBatch(c, rest, []string{t.name}, m, extra, pass, label, depth+1)
+			} else if len(as) > 1 {
+				// retry budget spent (or nothing new to blame): halve, so that no atom is left unjudged
+				var rest []atom
+				for _, a := range as {
+					if !blamed[a.id] {
+						rest = append(rest, a)
+					}
+				}
+				if len(rest) > 1 {
+					mid := len(rest) / 2
+					runBatch(c, rest[:mid], []string{t.name}, m, extra, pass, label, 0)
+					runBatch(c, rest[mid:], []string{t.name}, m, extra, pass, label, 0)
+				} else if len(rest) == 1 && len(rest) < len(as) {
+					runBatch(c, rest, []string{t.name}, m, extra, pass, label, 0)
+				}
 			}
 			continue
 		}
@@ -563,6 +613,7 @@ func runBatch(c *core.Ctx, as []atom, tgs []string, m mode, extra []string, pass
 	}
 	// per (atom, target) outcome
 	failedTargets := map[string]bool{}
+	otherOut, unjudged := "", false
 	if !ok {
 		byTarget := map[string]string{}
 		for _, l := range strings.Split(raw, "\n") {
@@ -578,15 +629,66 @@ func runBatch(c *core.Ctx, as []atom, tgs []string, m mode, extra []string, pass
 				mu.Lock()
 				c.Note("build output not tied to a file: %s", core.OneLine(out))
 				mu.Unlock()
+				otherOut = out
+				if strings.Contains(out, "import cycle not allowed") {
+					otg := "server"
+					for _, cand := range []string{"cli", "client", "model"} {
+						if strings.Contains(out, "/"+cand+"\n") || strings.Contains(out, "/"+cand+"/") || strings.Contains(out, "/"+cand+" ") || strings.Contains(out, "/"+cand+":") {
+							otg = cand
+							break
+						}
+					}
+					before := len(blamed)
+					blame("does-not-compile", otg, out)
+					if len(blamed) == before {
+						unjudged = true
+					}
+				} else if !rxFileLine.MatchString(raw) {
+					unjudged = true // nothing but untied output: no atom of this batch was type-checked
+				}
 				continue
 			}
 			blame("does-not-compile", tg, out)
+		}
+	}
+	if !ok && len(blamed) == 0 && (unjudged || len(deferred) > 0) {
+		// a failure that no atom answers for: judge the halves; what only the whole shows is reported unattributed
+		if len(as) > 1 {
+			var gt []string
+			for t := range generated {
+				gt = append(gt, t)
+			}
+			sort.Strings(gt)
+			before := reportsFor(as)
+			mid := len(as) / 2
+			runBatch(c, as[:mid], gt, m, extra, pass, label, 0)
+			runBatch(c, as[mid:], gt, m, extra, pass, label, 0)
+			if reportsFor(as) > before {
+				return
+			}
+		} else if pass == "" {
+			tgl := keys(failedTargets)
+			tg := "server"
+			for _, t := range tgl {
+				if t != "other" {
+					tg = t
+					break
+				}
+			}
+			mu.Lock()
+			heldAtom[as[0].id] = false
+			report(as[0].id, "does-not-compile", tg, cfg, fmt.Sprintf("generate %s on a valid document: does-not-compile: %s", tg, core.OneLine(tail(raw, 500))), files(raw))
+			mu.Unlock()
+			return
 		}
 	}
 	if len(blamed) == 0 {
 		mu.Lock()
 		for _, f := range deferred {
 			f()
+		}
+		if len(deferred) == 0 && unjudged && !ok {
+			c.Violation(fmt.Sprintf("C01/%sunattributed[%s]/does-not-compile/build/%s", pass, label, cfg), fmt.Sprintf("the generated module does not build, not attributable to one atom: %s", core.OneLine(tail(otherOut, 600))), files(raw))
 		}
 		mu.Unlock()
 	}
@@ -606,6 +708,26 @@ func runBatch(c *core.Ctx, as []atom, tgs []string, m mode, extra []string, pass
 			}
 			sort.Strings(gt)
 			runBatch(c, rest, gt, m, extra, pass, label, depth+1)
+			return
+		}
+	}
+	if !ok && len(blamed) > 0 && depth >= 8 {
+		// rebuild budget spent: halve what is left, so that no atom is left unjudged
+		var rest []atom
+		for _, a := range as {
+			if !blamed[a.id] {
+				rest = append(rest, a)
+			}
+		}
+		if len(rest) > 1 {
+			var gt []string
+			for t := range generated {
+				gt = append(gt, t)
+			}
+			sort.Strings(gt)
+			mid := len(rest) / 2
+			runBatch(c, rest[:mid], gt, m, extra, pass, label, 0)
+			runBatch(c, rest[mid:], gt, m, extra, pass, label, 0)
 			return
 		}
 	}
@@ -720,6 +842,9 @@ func catalogue(c *core.Ctx) []atom {
 		a := atom{id: "param." + pa.ID, kind: "param", ops: []opJ{{op.Method, "/p" + strings.TrimPrefix(op.Path, "/op"), o}}, defs: map[string]J{}}
 		for dk, dv := range pa.Aux {
 			a.defs[dk] = dv
+			if _, poly := dv["discriminator"]; poly {
+				a.noExpand = true // expand mode and polymorphism: documented limitation
+			}
 		}
 		out = append(out, a)
 	}
@@ -916,7 +1041,21 @@ type pendingReport struct {
 
 var pending = map[[3]string][]pendingReport{} // guarded by mu (callers hold it)
 
+// reportedAtoms counts the reports made against each atom (guarded by mu).
+var reportedAtoms = map[string]int{}
+
+func reportsFor(as []atom) int {
+	mu.Lock()
+	defer mu.Unlock()
+	n := 0
+	for _, a := range as {
+		n += reportedAtoms[a.id]
+	}
+	return n
+}
+
 func report(id, kind, tg, cfg, what string, files map[string]string) {
+	reportedAtoms[id]++
 	k := [3]string{id, kind, tg}
 	pending[k] = append(pending[k], pendingReport{cfg, what, files})
 }
